@@ -107,6 +107,35 @@ TEXT = {
               "pending, high only with nothing urgent pending, the timer's message only after the grace period), c10_ran (awaiting the last ticket implies every earlier control of that "
               "queue has been taken), and c10_priority_fails_today as the witness for the unbiased select."),
         note=COMMON_NOTE + "Modelled: tokio mpsc/select!/paused clock, process-wrap child (scripted child through the public spawn hook), SeqCst reading of the Relaxed atomics."),
+    "C13": dict(
+        design_ref="§7 C13",
+        technique="Lean 4 invariant proof over every sequence of configuration changes (made while the worker is parked or from inside its own watch/unwatch calls): quiescent => registered = believed = configured; differential execution of the real fs worker against a recording watcher (hook H2)",
+        text=("Theorem c13_converges: for the repaired worker and no injected faults, in every reachable quiescent state (no wake-up pending, change counter seen = current) the active watcher has "
+              "the configured kind, the registered set and the worker's belief equal the configured path set with the configured modes, and there is no watcher iff the set is empty; "
+              "f8a_witness / f8b_witness keep the kernel-checked counterexamples for the pre-repair code. Partial: with failing watch/unwatch calls the model is tied by correspondence only."),
+        note=COMMON_NOTE + "Modelled: tokio Notify, the notify back-ends (recording watcher), HashSet iteration order (call logs compared sorted)."),
+    "C15": dict(
+        design_ref="§7 C15",
+        technique="Lean 4 conservation proof for a bounded-channel / error-hook model (every capacity, handler script, operation sequence); differential execution of a real Watchexec instance with a fault-injecting filterer and scripted handlers, plus the fs-worker stream for watch/unwatch failures",
+        text=("Theorem c15_conserved: while the hook runs, the errors passed to send().await are — in order, each exactly once — the handler's calls, then the channel, then the still-waiting "
+              "senders, for every channel capacity >= 1; hook_end: only the handler's verdict (elevate / critical) ends the hook, with that error; ended_stops. The real instance is run with "
+              "capacities 1/2/64 and handlers that ignore, sleep, elevate, raise critical or replace themselves; the model predicts the handler generation per error and main's result."),
+        note=COMMON_NOTE + "Modelled: tokio bounded mpsc, the event heap (order is an input). Real-time runs."),
+    "C01": dict(
+        design_ref="§7 C01",
+        technique="Lean 4 proof by induction over the turns of throttle_collect (every clock reading, recv outcome, filter verdict as inputs): conservation, non-empty batches, filter bypass; differential execution of the real action worker in real time plus a schedule-independent oracle",
+        text=("Theorems: collect_conserve (the returned batch is exactly the set so far plus the accepted events received in this call, in receive order, and is non-empty), turn_next_set / "
+              "turn_batch (per turn), turn_filtered (only non-urgent non-empty events reach the filter; every error comes from an erroring verdict and its event is not kept), "
+              "classify_spec. The driver's zero-latency run goes through the same `turn` function and must reproduce the real worker's batches away from window edges."),
+        note=COMMON_NOTE + "Modelled: the priority channel, tokio timeout, std Instant (readings are inputs). Real-time runs."),
+    "C02": dict(
+        design_ref="§7 C02",
+        technique="Lean 4 proof of the debounce lower bound for every turn (any throttle incl. 0 and changing, any monotone clock), urgent bypass and flush; differential execution in real time with a strict microsecond lower-bound oracle",
+        text=("Theorems: turn_lower_bound (a batch without urgent events leaves no earlier than last + throttle for the throttle value read in that turn, and last is the reading taken after "
+              "its first event), turn_batch (an urgent event returns the batch in its own turn), turn_filtered (urgent events never reach the filter), collect_conserve (everything accepted "
+              "in the window is in that batch). Bounded delay after the window under rejected traffic is stated for the eager scheduler; its numeric value on a real scheduler is "
+              "reported (worst lateness) but not proved."),
+        note=COMMON_NOTE + "Modelled: the priority channel, tokio timeout, std Instant. Real-time runs."),
 }
 
 NOT_APPLICABLE = {}
